@@ -235,6 +235,11 @@ def r5_r6_for_each(f):
                 while c[k].text != "|":
                     k += 1
                 pat = f.tok_text(po + 2, k - 1)
+                # a closure parameter may carry a type (`|m: String|`); a for pattern may not
+                if ":" in pat and not pat.strip().startswith("("):
+                    pat = pat.split(":", 1)[0].strip()
+                # `for x in E.into_iter()` is `for x in E` (IntoIterator is what `for` calls)
+                recv = re.sub(r"\s*\.\s*into_iter\s*\(\s*\)\s*$", "", recv)
                 if c[k + 1].text != "{" or f.br[k + 1] != pc - 1:
                     raise RuleError("R5/R6: closure body is not a block at line %d" % t.line)
                 bo, bc = k + 1, pc - 1
